@@ -4,14 +4,8 @@
 import sys
 rel, wt, out, n = sys.argv[1], sys.argv[2], sys.argv[3], int(sys.argv[4]) if len(sys.argv) > 4 else 6
 focus = sys.argv[5] if len(sys.argv) > 5 else ""
-print(f"""You are a maintainer tidying up a Python library. You work ONLY inside the scratch git worktree {wt} (a checkout of the asyncio FIX-protocol library alexveden/asyncfix) and write results ONLY under {out}/ . Never read or modify /repo or /verif. There is no network.
-
-How to run things: always with the worktree as current directory:
-  cd {wt} && /venv/bin/python -m pytest -q -p no:cacheprovider        (192 tests pass on the clean tree, ~8 s)
-
-Your task: produce {n} different, independent, STRICTLY BEHAVIOUR-PRESERVING refactorings of {wt}/{rel} {('(concentrate on: ' + focus + ')') if focus else ''}.
-Each one is the kind of clean-up a maintainer would merge without discussion, and must not change what the code does for ANY input, state,
-exception path, await/suspension point ordering, or side-effect order - not even in corner cases. Typical kinds (use a different kind for each of the {n}):
+wave2 = len(sys.argv) > 6 and sys.argv[6] == "wave2"
+KINDS1 = f"""Typical kinds (use a different kind for each of the {n}):
   - extract a few statements of a long method into a private helper method (same class) and call it (keep `await`s where they were: an extracted
     coroutine is awaited at the same place, nothing new is awaited in between)
   - inline a tiny private helper at its call sites, or a single-use local variable into its use (or introduce a local for a repeated sub-expression
@@ -25,7 +19,33 @@ exception path, await/suspension point ordering, or side-effect order - not even
   - replace string building: f-string <-> `+` / `.format`, a literal by a module-level constant with the same value (or the reverse)
   - `try/finally` <-> a context-manager free equivalent is NOT wanted; do not touch exception semantics except for exact equivalents
   - move a method within its class, split a long expression over several locals, add type annotations, tidy imports
-Make each refactoring touch real logic (not only comments/docstrings/whitespace), 3-30 changed lines, and touch different methods where possible.
+"""
+KINDS2 = f"""Kinds wanted in THIS round (an earlier round already did: extract a helper, early return, De Morgan, rename a local, literal -> constant, comprehension,
+inline a single-use local). Use a different kind for each of the {n}, chosen from:
+  - rename a PRIVATE INSTANCE ATTRIBUTE (e.g. self._something) or a private method consistently in the whole package (all reads, writes; the tests must
+    still pass unedited - so only rename attributes the tests do not touch; grep the tests first)
+  - rename a PARAMETER of a private method (and the keyword at its call sites, if any)
+  - INLINE an existing small private helper method into its (few) call sites and delete it
+  - turn an if/elif chain that dispatches on a value into a `match` statement or into a dict-of-bound-methods dispatch (or the reverse), keeping order,
+    fall-through and default behaviour identical
+  - replace `if not A: X else: Y` by `if A: Y else: X`; replace `a if c else b` by an if/else statement or the reverse
+  - replace a `while` loop by an equivalent `for` (or the reverse), or a counter loop by `enumerate`/`range`
+  - hoist a loop-invariant, side-effect-free expression out of a loop; or cache an attribute chain in a local (`sess = self._session`) when nothing
+    rebinds it in between
+  - replace `x = x + y` by `x += y` for immutable operands, `d.keys()` iteration by `d` iteration, `len(x) == 0` by `not x` for builtin containers
+  - move a block of independent initialisations in `__init__` to a private `_init_xxx()` method called from the same place
+  - split one long method into two sequential private methods (first half / second half) called one after the other from the original, passing the
+    needed locals as arguments and return values
+  - convert a @staticmethod to a module-level function (or the reverse) and update the call sites
+"""
+print(f"""You are a maintainer tidying up a Python library. You work ONLY inside the scratch git worktree {wt} (a checkout of the asyncio FIX-protocol library alexveden/asyncfix) and write results ONLY under {out}/ . Never read or modify /repo or /verif. There is no network.
+
+How to run things: always with the worktree as current directory:
+  cd {wt} && /venv/bin/python -m pytest -q -p no:cacheprovider        (192 tests pass on the clean tree, ~8 s)
+
+Your task: produce {n} different, independent, STRICTLY BEHAVIOUR-PRESERVING refactorings of {wt}/{rel} {('(concentrate on: ' + focus + ')') if focus else ''}.
+Each one is the kind of clean-up a maintainer would merge without discussion, and must not change what the code does for ANY input, state,
+exception path, await/suspension point ordering, or side-effect order - not even in corner cases. """ + (KINDS2 if wave2 else KINDS1) + f"""Make each refactoring touch real logic (not only comments/docstrings/whitespace), 3-30 changed lines, and touch different methods where possible.
 Do not fix bugs, do not change behaviour 'for the better', do not change public names, log texts may stay as they are.
 
 For each k = 1..{n} create {out}/r<k>/ with:
